@@ -13,6 +13,13 @@ from pyvc.api import UNITS, unit
 from pyvc.values import NamedTuple, V
 
 LEVEL = "proof"
+# differential test of the individual pandas / numpy contract entries and of the interpreter (NaN handling, masks, in-place
+# updates and aliasing, group sums, merges, dtype casts): 58 snippets of ordinary library code, symbolic result evaluated on
+# random concrete frames vs the real run -- a test of the trusted base shared by all frame proofs, not a proof
+BOUNDED = [
+    {"name": "theory_conformance_library_entries", "script": "conformance_entries.py", "python": "vt", "tiers": ["quick"], "args": ["--n", "5"], "timeout": 1200},
+    {"name": "theory_conformance_library_entries", "script": "conformance_entries.py", "python": "vt", "tiers": ["thorough"], "args": ["--n", "40"], "timeout": 3000},
+]
 BASE = "elexmodel.models.BaseElectionModel.BaseElectionModel"
 MRH = "elexmodel.handlers.data.ModelResults.ModelResultsHandler"
 ASSUMPTIONS = [
